@@ -254,7 +254,14 @@ def translate_impl(res, idx):
 def run_pair(cases_cps, profile="debug"):
     """cases_cps: list of code point lists. Returns (impl_lines, model_lines, error)."""
     text = "\n".join(enc(c) for c in cases_cps) + "\n"
-    rc, impl = vplib.run_lines([vplib.harness_bin("lex", profile)], text, timeout=1800)
+    exe = vplib.private_copy(vplib.harness_bin("lex", profile))
+    try:
+        rc, impl = vplib.run_lines([exe], text, timeout=1800)
+    finally:
+        try:
+            os.remove(exe)
+        except OSError:
+            pass
     if rc != 0 or len(impl) != len(cases_cps):
         return None, None, "lex harness rc=%s lines=%d/%d" % (rc, len(impl), len(cases_cps))
     idx = tt_index()
@@ -344,12 +351,12 @@ def run(tier, seed):
     v.coverage.update(vplib.proof_coverage(
         pr, "make -C coq Properties/C13.vo && coqc Properties/C13.v (Print Assumptions) && tools/props/c13.py correspondence + oracle", TRUSTED))
     v.coverage["tables_regenerated"] = sy.get("changed", [])
-    ok, out = vplib.cargo_build("debug")
+    ok, out = vplib.cargo_build("debug", bins=["lex"])
     if not ok:
         v.tie_failure("harness build failed: " + out[-400:])
     profiles = ["debug"]
     if tier == "thorough":
-        okr, outr = vplib.cargo_build("release")
+        okr, outr = vplib.cargo_build("release", bins=["lex"])
         if okr:
             profiles.append("release")
         else:
@@ -404,7 +411,7 @@ def replay(obj):
     if not cases:
         print("replay names a broken tie, not an input:", obj.get("no_longer_checks"))
         return run("quick", obj.get("seed", 0))
-    ok, out = vplib.cargo_build("debug")
+    ok, out = vplib.cargo_build("debug", bins=["lex"])
     if not ok:
         print("harness build failed")
         return 2
